@@ -7,8 +7,11 @@ import "errors"
 // (2) located parse errors: for ANY file content (lines blank / unparsable / event, last line
 // possibly incomplete) readEvents fails exactly when some line that counts is unparsable, and the
 // error names the file and the 1-based number of the first such line.
-func zzC12_ParseErrors() {
-	root := zzFSInit("3;logexists=1;Results=0")
+func zzC12_ParseErrors()   { zzC12ParseErrors("3;logexists=1;Results=0") }
+func zzC12_ParseErrors_5() { zzC12ParseErrors("5;logexists=1;Results=0") }
+
+func zzC12ParseErrors(spec string) {
+	root := zzFSInit(spec)
 	_, dir := zzFSOpts(root)
 	path := getEventsPath(dir)
 	events, err := readEvents(path)
@@ -84,9 +87,12 @@ func zzC12_HistoryPrune()   { zzC12HistoryGrows(3) }
 // unparsable timestamps) replay to a graph or to an error - never a crash - and every reader of
 // the graph terminates without crashing. The obligations are the panic and unwinding
 // obligations the engine generates for every dereference, index, map write and loop.
-func zzC12_Total() {
+func zzC12_Total()   { zzC12Total("2") }
+func zzC12_Total_3() { zzC12Total("3") }
+
+func zzC12Total(spec string) {
 	var events []Event
-	zzHavoc("events", &events, "2")
+	zzHavoc("events", &events, spec)
 	g, err := replayEvents(events)
 	if err != nil {
 		zzReach("replay-error")
